@@ -77,6 +77,11 @@ package client
 //@   at call fetchMetadata#1: after ghost md0 := result0
 //@   at call GetResults#1: assert arg0 == c.pcache && str(arg2) == pid0 && arg3 == ctx0 && arg4 == md0 && len(md0) != 0
 //@   ensures closed(resChan)
+// without a provider cache one value key gives at most one result, and only when metadata was found:
+// it carries that metadata and the context ID of that value key (send event arguments: channel, then
+// ContextID{arr,off,len,cap}, Metadata{arr,off,len,cap}, Provider)
+//@   loop 2: iteration ensures c.pcache == nil ==> itercount("send:resChan") <= 1
+//@   loop 2: iteration ensures c.pcache == nil && itercount("send:resChan") == 1 ==> iterarg("send:resChan", 7) != 0 && iterarg("send:resChan", 5) == sliceArr(md0) && iterarg("send:resChan", 7) == len(md0) && iterarg("send:resChan", 1) == sliceArr(ctx0)
 //@   loop 1: invariant c != nil && dhapiOK(c.dhstoreAPI) && ctx != nil && !closed(resChan) && (c.pcache != nil ==> pcOK(c.pcache) && !held(c.pcache.writeLock))
 //@   loop 2: invariant c != nil && dhapiOK(c.dhstoreAPI) && ctx != nil && !closed(resChan) && (c.pcache != nil ==> pcOK(c.pcache) && !held(c.pcache.writeLock))
 //@   loop 3: invariant c != nil && dhapiOK(c.dhstoreAPI) && ctx != nil && !closed(resChan) && (c.pcache != nil ==> pcOK(c.pcache) && !held(c.pcache.writeLock))
